@@ -64,7 +64,12 @@ OpsFor(role) == CASE role.k = "w" -> WOps(role.n)
                   [] role.k = "grp" -> {GSv(role.n, "GET", "/x", "a.com"), GSv(role.n, "GET", "/7q", "a.com"), GSv(role.n, "GET", "/v1/x", "zz.com"), GSv(role.n, "GET", "/v1/8w", "zz.com"),
                                         GSv(role.n, "GET", "/nope", "zz.com"), GSv(role.n, "POST", "/y/z", "b.com")}
                   [] role.k = "seq" -> WOps("r1") \cup ROps("r1") \cup ROps("r2") \cup {New("r2"), Hd("r2", "/posts/author", P, "")} \cup {x \in WOps("r3") : x.op = "handle"}
-Prefix(role) == IF role.k = "own" THEN Setup(role.n) ELSE IF role.k = "hosts" THEN <<New(role.n)>> ELSE <<>>
+\* on the quiescent router every goroutine's FIRST request is the same CORS preflight, released together: whatever the request
+\* path initialises lazily is initialised by all of them at once
+Preflight(n) == SvH(n, "OPTIONS", "/posts/author", "/posts/author", <<>>, [Origin |-> "https://o1.example"] @@ ("Access-Control-Request-Method" :> "GET")
+                                                                           @@ ("Access-Control-Request-Headers" :> "content-type, x-a"))
+Prefix(role) == IF role.k = "own" THEN Setup(role.n) ELSE IF role.k = "hosts" THEN <<New(role.n)>>
+                ELSE IF Mode = "c07quiet" THEN <<Preflight(role.n)>> ELSE <<>>
 SetupOps == CASE Mode \in {"c06", "c07quiet"} -> Setup("r1")
               [] Mode = "c07group" -> <<New("g1")>> \o Setup("r1")
               [] Mode = "c07seq" -> <<New("r1"), New("r3")>>
